@@ -255,7 +255,9 @@ let err_text = function
   | 1 -> "Invalid_name_in_a_DNS_record:_Label_too_long"
   | 2 -> "Invalid_name_in_a_DNS_record:_Name_too_long"
   | 3 -> "Invalid_name_in_a_DNS_record:_Non-ASCII_character_in_a_label"
-  | _ -> "Parse_error"
+  | 4 -> "Parse_error"
+  | 5 -> "Invalid_DNS_packet:_A_DNS_packet_can_only_contain_up_to_one_question"
+  | _ -> "Invalid_name_in_a_DNS_record:_A_non-empty_name_cannot_start_with_a_NUL_byte"
 
 (* C16: the schedule is run by the Gallina slot model; failing calls print rc=-1 *)
 let run_schedule (steps : string) : string =
@@ -265,7 +267,7 @@ let run_schedule (steps : string) : string =
         match split_on ':' s with
         | [t; a] ->
           let t = nat_of_int (int_of_string t) in
-          if a.[0] = 'f' then CFail (t, n_of_int (1 + (int_of_string (String.sub a 1 (String.length a - 1)) mod 5)))
+          if a.[0] = 'f' then CFail (t, n_of_int (1 + (int_of_string (String.sub a 1 (String.length a - 1)) mod 7)))
           else CRead t
         | _ -> failwith "bad schedule step")
       (split_on '.' steps)
@@ -288,7 +290,7 @@ let run_schedule (steps : string) : string =
 
 (* C16: thread 0 fails and stays alive, n short-lived threads then fail one after the other, thread 0 reads *)
 let run_sequential (n : int) : string =
-  let rec build i t acc = if i > n then List.rev acc else build (i + 1) (S t) (CFail (S t, n_of_int (1 + ((1 + i mod 4) mod 5))) :: acc) in
+  let rec build i t acc = if i > n then List.rev acc else build (i + 1) (S t) (CFail (S t, n_of_int (1 + ((1 + i mod 4) mod 7))) :: acc) in
   let ops = (CFail (O, n_of_int 1) :: build 1 O []) @ [CRead O] in
   match List.rev (run_sched slots_init ops) with
   | (_, r) :: _ -> Printf.sprintf "HS[%s]" (match r with None -> "nofail" | Some m -> err_text (int_of_n m - 1))
@@ -300,6 +302,11 @@ let rec run_op (ctx : ctx) (op : string) : string =
     match split_on '|' op with
     | [_; x; _] -> "SAME:" ^ run_op { pp = None } x
     | _ -> failwith "bad HP op"
+  end else
+  if String.length op > 3 && String.sub op 0 3 = "HL|" then begin
+    match split_on '|' op with
+    | [_; _; x; _; _] -> "SAME:" ^ run_op { pp = None } x
+    | _ -> failwith "bad HL op"
   end else
   let f = Array.of_list (split_on ',' op) in
   match f.(0) with
